@@ -147,6 +147,7 @@ template <class K, sz N> void constants_case(std::vector<long> const &scalars)
     C14_EQ(rdv(K::template fill<kst<K, N>>(static_cast<I>(k))), want, fn + ":fill", "fill<static>(k)");
   }
   // writes through every accessor hit exactly the addressed component
+  if constexpr (int_writes_ok)
   static_for<N>([&](auto ii) {
     constexpr sz i = decltype(ii)::value;
     rvec<N> want{};
